@@ -1172,6 +1172,56 @@ class SBV(Sym):
         a, b = SBV.coerce(self, o)
         return SBV(z3.SRem(a.t, b.t) if self.signed else z3.URem(a.t, b.t), self.signed)
 
+    # modular arithmetic (the harness chooses a width that cannot overflow)
+    def __add__(self, o):
+        if isinstance(o, (SFP, builtins.float)):
+            return self.to_fp() + o
+        a, b = SBV.coerce(self, o)
+        return SBV(a.t + b.t, self.signed)
+
+    __radd__ = __add__
+
+    def __sub__(self, o):
+        if isinstance(o, (SFP, builtins.float)):
+            return self.to_fp() - o
+        a, b = SBV.coerce(self, o)
+        return SBV(a.t - b.t, self.signed)
+
+    def __rsub__(self, o):
+        if isinstance(o, (SFP, builtins.float)):
+            return SFP.of(o, z3.Float64()) - self.to_fp()
+        a, b = SBV.coerce(self, o)
+        return SBV(b.t - a.t, self.signed)
+
+    def __mul__(self, o):
+        if isinstance(o, (SFP, builtins.float)):
+            return self.to_fp() * o
+        a, b = SBV.coerce(self, o)
+        return SBV(a.t * b.t, self.signed)
+
+    __rmul__ = __mul__
+
+    def __neg__(self):
+        return SBV(-self.t, self.signed)
+
+    def to_fp(self, sort=None):
+        sort = sort or z3.Float64()
+        return SFP(z3.fpSignedToFP(RNE, self.t, sort) if self.signed else z3.fpUnsignedToFP(RNE, self.t, sort))
+
+    def __truediv__(self, o):
+        # Python int / int -> float (correctly rounded quotient): both operands are exactly representable here
+        b = o.to_fp() if isinstance(o, SBV) else SFP.of(o, z3.Float64())
+        return self.to_fp() / b
+
+    def __rtruediv__(self, o):
+        return SFP.of(o, z3.Float64()) / self.to_fp()
+
+    def __floordiv__(self, o):
+        a, b = SBV.coerce(self, o)
+        if self.signed:
+            raise Unsupported("signed bit-vector floor division")
+        return SBV(z3.UDiv(a.t, b.t), False)
+
     def __rshift__(self, k):
         return SBV(self.t >> k if self.signed else z3.LShR(self.t, k), self.signed)
 
@@ -1200,7 +1250,7 @@ class SFP(Sym):
     def sort(self):
         return self.t.sort()
 
-    def _other(self, o):
+    def _other0(self, o):
         if isinstance(o, SFP):
             if o.sort != self.sort:
                 # numpy promotes float32 op float64 -> float64
@@ -1211,7 +1261,7 @@ class SFP(Sym):
         import numpy as _np
         if isinstance(o, _np.floating):
             so = z3.Float32() if o.dtype == _np.float32 else z3.Float64()
-            return self._other(SFP(z3.FPVal(builtins.float(o), so)))
+            return self._other0(SFP(z3.FPVal(builtins.float(o), so)))
         if isinstance(o, (builtins.float, builtins.int)):
             # python scalars are weakly typed in NumPy 2: they take the array's precision
             return self, SFP(z3.FPVal(builtins.float(o), self.sort))
@@ -1246,6 +1296,44 @@ class SFP(Sym):
         return mkbool(z3.fpEQ(a.t, b.t))
 
     __hash__ = Sym.__hash__
+
+    @staticmethod
+    def of(x, sort):
+        if isinstance(x, SFP):
+            return x
+        if isinstance(x, SBV):
+            return x.to_fp(sort)
+        return SFP(z3.FPVal(builtins.float(x), sort))
+
+    def _other(self, o):   # noqa: F811  (extends the earlier definition with bit-vector operands)
+        if isinstance(o, SBV):
+            return self, o.to_fp(self.sort)
+        return SFP._other0(self, o)
+
+    def __rsub__(self, o):
+        a, b = self._other(o)
+        return SFP(z3.fpSub(RNE, b.t, a.t))
+
+    def __neg__(self):
+        return SFP(z3.fpNeg(self.t))
+
+    def _fcmp(self, o, f):
+        a, b = self._other(o)
+        return mkbool(f(a.t, b.t))
+
+    def __lt__(self, o): return self._fcmp(o, z3.fpLT)
+    def __le__(self, o): return self._fcmp(o, z3.fpLEQ)
+    def __gt__(self, o): return self._fcmp(o, z3.fpGT)
+    def __ge__(self, o): return self._fcmp(o, z3.fpGEQ)
+
+    def ceil(self):
+        return SFP(z3.fpRoundToIntegral(z3.RTP(), self.t))
+
+    def floor(self):
+        return SFP(z3.fpRoundToIntegral(z3.RTN(), self.t))
+
+    def to_sbv(self, width=64):
+        return SBV(z3.fpToSBV(RTZ, self.t, z3.BitVecSort(width)), signed=True)
 
 
 # --------------------------------------------------------------------------- #
